@@ -141,7 +141,13 @@ fn accept<B: Fld, E: FieldElement<BaseField = B>, H: ElementHasher<BaseField = B
         let inst = match r {
             Ok(x) => x,
             Err(pi) => {
-                st.violation(format!("prover-panic:{}", pi.sig), desc("prover panic", pi.msg));
+                if tag.starts_with("f62^3") && wfv::report::is_coin_exhaustion(&pi.msg) {
+                    // the channel's coin ran out of its 1000 rejection-sampling attempts (documented limit; about
+                    // 1.4e-7 per draw for 24-byte elements of three 62-bit coefficients): not a verdict on FRI
+                    st.count("outside_claim.coin_exhausted");
+                } else {
+                    st.violation(format!("prover-panic:{}", pi.sig), desc("prover panic", pi.msg));
+                }
                 return;
             },
         };
@@ -169,6 +175,7 @@ fn accept<B: Fld, E: FieldElement<BaseField = B>, H: ElementHasher<BaseField = B
         for (what, res) in [("direct", direct), ("after-roundtrip", after)] {
             match res {
                 Ok(Ok(())) => {},
+                Ok(Err(e)) if tag.starts_with("f62^3") && wfv::report::is_coin_exhaustion(&e) => st.count("outside_claim.coin_exhausted"),
                 Ok(Err(e)) => st.violation(sig(&format!("honest-proof-rejected:{what}:round{round}")), desc(what, e)),
                 Err(pi) => st.violation(format!("verifier-panic:{}", pi.sig), desc(what, pi.msg)),
             }
@@ -224,7 +231,11 @@ fn accept_nonpow2<B: Fld, E: FieldElement<BaseField = B>, H: ElementHasher<BaseF
     let inst = match catch(|| frih::prove::<B, E, H>(&mut prover, evals.clone(), &opts, pos.len().max(1).min(domain - 1), Some(pos.clone()))) {
         Ok(x) => x,
         Err(pi) => {
-            st.violation(format!("prover-panic:{}", pi.sig), desc("prover panic", pi.msg));
+            if tag.starts_with("f62^3") && wfv::report::is_coin_exhaustion(&pi.msg) {
+                st.count("outside_claim.coin_exhausted");
+            } else {
+                st.violation(format!("prover-panic:{}", pi.sig), desc("prover panic", pi.msg));
+            }
             return;
         },
     };
